@@ -1,6 +1,6 @@
 // observable.cpp — implementation side of the C16 correspondence (tulz::Observable).
 //
-// Case: header [kind] (0 = Observable<int>, 1 = Observable<double, NearEq>, 2 = Observable<std::string>),
+// Case: header [kind] (0 = Observable<int>, 1 = Observable<double, NearEq>, 2 = Observable<std::string>, 3 = Observable<int, BucketEq>),
 // a line with the initial value, then one operation per line (see ObservableModel.v: oop_of).
 // After every operation: the operator's return value (if any), SEP, value(), SEP, the
 // notifications received during the operation as (subscriber, value).
@@ -22,6 +22,12 @@ static const int64_t SCALE = 1048576, TOL = 16384, RANGE = 1099511627776LL;
 
 struct NearEq {
     bool operator()(const double &a, const double &b) const { return std::abs(a - b) < 1.0 / 64; }
+};
+
+// an equality coarser than the unit step of ++ / --: same bucket of eight (floor division)
+struct BucketEq {
+    static long bucket(long x) { return x >= 0 ? x / 8 : -((-x + 7) / 8); }
+    bool operator()(const int &a, const int &b) const { return bucket(a) == bucket(b); }
 };
 
 template<typename T> struct Codec;
@@ -51,7 +57,7 @@ static void put(Line &out, const Line &v) { out.push_back((int64_t) v.size()); o
 static bool bin(int kind, int64_t code, const Line &a, const Line &b, Line &r) {
     if (kind == 2) { if (code != 11) return false; r = a; r.insert(r.end(), b.begin(), b.end()); return true; }
     __int128 x = a[0], y = b[0], n;
-    if (kind == 0) {
+    if (kind == 0 || kind == 3) {
         if (code == 11) n = x + y; else if (code == 12) n = x - y; else if (code == 13) n = x * y;
         else if (code == 14) { if (y == 0) return false; n = x / y; } else return false;
     } else {
@@ -187,7 +193,7 @@ struct Runner {
                 if (mustNotify) for (size_t id = 0; id < ref.size(); ++id) if (!ref[id].valid) ref[id].subscribed = false; // lazily removed
             } else if (!events.empty()) oracle_fail("C16: notification outside an assignment / apply / increment");
             for (auto &e : events) recorded[e.first] = e.second;
-            if (kind != 1)
+            if (kind != 1 && kind != 3)
                 for (size_t id = 0; id < ref.size(); ++id)
                     if (inSync[id] && recorded[id] != after)
                         oracle_fail("C16: recording subscriber " + std::to_string(id) + " does not hold value() (default equality)");
@@ -203,6 +209,7 @@ int main() {
         case 0: { Runner<int, std::equal_to<int>> r; r.run(c); break; }
         case 1: { Runner<double, NearEq> r; r.run(c); break; }
         case 2: { Runner<std::string, std::equal_to<std::string>> r; r.run(c); break; }
+        case 3: { Runner<int, BucketEq> r; r.run(c); break; }
         default: emit({PRE});
         }
     }, 20, 64);
